@@ -340,20 +340,27 @@ func TestC19Local(t *testing.T) { testC19Local(t) }
 // TestC19Invalid: targets outside the domain must be refused cleanly (no panic, nothing changes).
 func TestC19Invalid(t *testing.T) {
 	col := stats.New("C19", t.Name(),
-		"PatchByJSON with targets outside the stated domain (not JSON, JSON that is not an object, members that are null): oracle = no panic; if an error is returned the document and the operations awaiting push are unchanged; "+
+		"two document replicas; replica 0 builds a generated start document, both sync; PatchByJSON with a target outside the stated domain (not JSON, JSON that is not an object, members that are null - also behind valid members, so that a unit of several patches is refused half-way) on replica 0 or on replica 1 (which holds the document only as remote operations): oracle = no panic; if an error is returned the document and the operations awaiting push of that replica are unchanged; then an accepted patch to a generated target on the same replica: after delivery both replicas equal the target; "+
 			"non-trivial = the document was non-empty; distinct = (current, target)")
 	checkProp(t, "C19", col, func(c *caseCtx) {
 		sim.SeedIDs(rapid.Uint64Range(1, 1<<30).Draw(c.rt, "idseed"))
-		w := sim.NewWorld(sim.Document, 1, 1)
-		doc := w.Reps[0].DT.(orda.Document)
+		w := sim.NewWorld(sim.Document, 2, 2)
+		author := w.Reps[0].DT.(orda.Document)
 		start := c19Object(c.rt, "start", 2)
 		sb, _ := json.Marshal(start)
-		if _, e := doc.PatchByJSON(string(sb)); e != nil {
+		if _, e := author.PatchByJSON(string(sb)); e != nil {
 			c.rt.Skip("start document not reachable (covered by TestC19Local)")
 		}
-		bad := rapid.SampledFrom([]string{`[1,2]`, `[]`, `"str"`, `12`, `true`, `null`, `{`, ``, `{"a":}`, `{"a":null}`, `{"a":{"b":null}}`, `{"a":[1,null]}`, `nul`}).Draw(c.rt, "bad")
-		c.j.Header = map[string]interface{}{"start": string(sb), "target": bad}
-		before, bops := sim.Canon(doc.GetValue()), len(w.Reps[0].Buffer())
+		// the refused patch hits the replica that wrote the document, or (half of the cases) the one that has
+		// received all of it from the other replica
+		r := rapid.IntRange(0, 1).Draw(c.rt, "replica")
+		if err := w.Quiesce(); err != nil {
+			c.failf("HARNESS-ERROR: %v", err)
+		}
+		doc := w.Reps[r].DT.(orda.Document)
+		bad := rapid.SampledFrom([]string{`[1,2]`, `[]`, `"str"`, `12`, `true`, `null`, `{`, ``, `{"a":}`, `{"a":null}`, `{"a":{"b":null}}`, `{"a":[1,null]}`, `nul`, `{"zz1":1,"zz2":null}`, `{"zz1":1,"zz2":{"x":2},"zz3":[null]}`}).Draw(c.rt, "bad")
+		c.j.Header = map[string]interface{}{"start": string(sb), "target": bad, "replica": r}
+		before, bops := sim.Canon(doc.GetValue()), len(w.Reps[r].Buffer())
 		var perr error
 		var pan interface{}
 		func() {
@@ -365,11 +372,28 @@ func TestC19Invalid(t *testing.T) {
 		if pan != nil {
 			c.failf("PatchByJSON(%q) on %s panicked: %v", bad, before, pan)
 		}
-		after, aops := sim.Canon(doc.GetValue()), len(w.Reps[0].Buffer())
+		after, aops := sim.Canon(doc.GetValue()), len(w.Reps[r].Buffer())
 		if perr != nil && (after != before || aops != bops) {
-			c.failf("PatchByJSON(%q) returned an error but changed the document (%s -> %s) or queued operations (%d -> %d)", bad, before, after, bops, aops)
+			c.failf("PatchByJSON(%q) on replica %d returned an error but changed the document (%s -> %s) or queued operations (%d -> %d)", bad, r, before, after, bops, aops)
 		}
-		col.Case(len(start) > 0, string(sb)+"|"+bad, []string{"bad=" + bad}, func() interface{} { return c.j.Header })
+		labels := []string{"bad=" + bad, fmt.Sprintf("refused-on-replica=%d", r)}
+		if perr != nil {
+			// life goes on: an accepted patch on the same replica reaches its target everywhere
+			next := c19Object(c.rt, "next", 2)
+			nb, _ := json.Marshal(next)
+			if _, e := doc.PatchByJSON(string(nb)); e == nil {
+				if err := w.Quiesce(); err != nil {
+					c.failf("after the refused patch and an accepted one: %v", err)
+				}
+				for i, rep := range w.Reps {
+					if got, want := sim.Canon(rep.DT.(orda.Document).GetValue()), sim.Canon(sim.Normalize(next)); got != want {
+						c.failf("after a refused patch (%q) and an accepted one on replica %d, replica %d shows %s, the target is %s", bad, r, i, got, want)
+					}
+				}
+				labels = append(labels, "accepted-patch-after-the-refused-one")
+			}
+		}
+		col.Case(len(start) > 0, string(sb)+"|"+bad+fmt.Sprint(r), labels, func() interface{} { return c.j.Header })
 	})
 }
 
